@@ -1,15 +1,19 @@
 ------------------------------ MODULE TraceKron ------------------------------
-(* Validate recorded runs of the real rotate_psi / rotate_rho against KronSweep.tla.
-   The recorder wraps qucumber.utils.cplx.matmul while _kron_mult runs and
-   reconstructs, per site, the array y after that site (from the view bases of the
-   slices handed to matmul), the stride r and the site number; values are
-   Gaussian integers after scaling by 2^(f/2) (f = processed factor-carrying sites).
+(* Validate results of the real rotate_psi / rotate_rho against KronSweep.tla, through the public
+   interface only (harness/rot_record.py).
 
-   One ndjson line per trace: [basis, kind, fam, x, ev, fin] with
-   ev[j] = [e |-> "site", s (library site), r, b (letter), calls, y]  or  [e |-> "conj", y].
-   A trace is accepted iff KronSweep's own actions reproduce every recorded
-   intermediate and the returned array; KronSweep's invariants are evaluated on
-   every state of the accepted prefix. *)
+   KronSweep processes the tensor factors from the last site to the first; after the sites s..n the
+   array is Dense(Z..Z b_s..b_n) x, which is itself a public result: rotate_psi for the basis whose
+   first s-1 letters are replaced by Z.  One ndjson line per trace: [basis, kind, fam, mode, x, ev, fin].
+     mode = "sites"  (psi): ev[j] = [e |-> "site", s (library site, 0-based), b (letter), y (that public
+                     result, Gaussian integers after scaling by 2^(f/2))]; the trace is accepted iff each
+                     recorded array is KronSweep's SweepSite applied to the one before;
+     mode = "result" (rho): the intermediates of rotate_rho are not public results, so the sweep, the
+                     conjugate step and the second sweep run silently and must end in the recorded
+                     result.
+   KronSweep's invariants (strides, slices, refinement of the dense product) are evaluated on every
+   state of the accepted prefix.  How the implementation organises its matrix products is NOT part of
+   a trace: only what it returns. *)
 EXTENDS KronSweep, IOUtils, TLCExt
 
 Traces == ndJsonDeserialize(IOEnv.TRACE_FILE)
@@ -32,24 +36,21 @@ TInit == /\ tid \in 1..Len(Traces)
          /\ pc = "sweep"
          /\ TLCSet(tid, 0)
 
-TSite == /\ i < Len(T.ev)
+TSite == /\ T.mode = "sites" /\ i < Len(T.ev)
          /\ LET e == T.ev[i + 1] IN
               /\ e.e = "site"
               /\ e.s + 1 = s              \* library sites are 0-based
-              /\ e.r = r                  \* the stride of the slices handed to matmul
-              /\ e.b = basis[s]          \* the 2x2 matrix handed to matmul is this site's letter
-              /\ e.calls = (l \div 2) * r \* one matmul per slice
+              /\ e.b = basis[s]
               /\ SweepSite
-              /\ y' = e.y
-
-TConj == /\ i < Len(T.ev)
-         /\ LET e == T.ev[i + 1] IN
-              /\ e.e = "conj"
-              /\ ConjStep
-              /\ y' = e.y
-
-TNext == /\ TSite \/ TConj
+              /\ y' = e.y                 \* the public result for the basis Z..Z b_s..b_n
          /\ i' = i + 1
+
+\* result-only traces: the specification's steps are not observable one by one
+TSilent == /\ T.mode = "result"
+           /\ SweepSite \/ ConjStep
+           /\ i' = i
+
+TNext == /\ TSite \/ TSilent
          /\ UNCHANGED tid
 
 FinalOK == pc = "done" /\ i = Len(T.ev) /\ y = T.fin
